@@ -285,6 +285,27 @@ def openView (s : Sess) (caps : List Nat) : Sess × Bool :=
     | some v => ({ s with stack := v :: s.stack }, true)
     | none => (unwind { s with stack := b :: s.stack }, false)
 
+/-- `read_buffer_ref` on the innermost (fresh) view, after which the closure of `read_buffer`
+returns: `reader.read(buf.uninitialized_mut())?; buf.advance(read); buf.initialized()` -/
+def readTop (s : Sess) : Sess × Resp :=
+  match s.stack with
+  | [] => (s, .badOp)   -- not reached from `step`
+  | v :: rest =>
+    let x := s.rdr.read (v.mem.length - v.init)
+    let v1 := v.poke x.wrote
+    let s1 : Sess := { s with stack := v1 :: rest, rdr := x.next }
+    match x.ret with
+    | .panic => (unwind s1, .panic)
+    | .err => (s1.pop, .readErr)
+    | .ok k =>
+      match v1.advance k with
+      | (v2, .ok) =>
+        let s2 : Sess := { s1 with stack := v2 :: rest }
+        match v2.initialized with
+        | some bs => (s2.pop, .readOk bs)
+        | none => (unwind s2, .panic)
+      | (v2, _) => (unwind { s1 with stack := v2 :: rest }, .panic)
+
 def step (s : Sess) : Op → Sess × Resp
   | .write bs => s.onTop (·.extend bs) (.wrote true) (.wrote false)
   | .extendRep b n =>
@@ -323,25 +344,7 @@ def step (s : Sess) : Op → Sess × Resp
   | .read caps =>
     match s.openView caps with
     | (s', false) => (s', .panic)
-    | (s', true) =>
-      match s'.stack with
-      | [] => (s', .badOp)   -- unreachable: `openView … = (_, true)` pushes a view
-      | v :: rest =>
-        -- `read_buffer_ref`: `reader.read(buf.uninitialized_mut())?; buf.advance(read); buf.initialized()`
-        let x := s'.rdr.read (v.mem.length - v.init)
-        let v1 := v.poke x.wrote
-        let s1 : Sess := { s' with stack := v1 :: rest, rdr := x.next }
-        match x.ret with
-        | .panic => (unwind s1, .panic)
-        | .err => (s1.pop, .readErr)
-        | .ok k =>
-          match v1.advance k with
-          | (v2, .ok) =>
-            let s2 : Sess := { s1 with stack := v2 :: rest }
-            match v2.initialized with
-            | some bs => (s2.pop, .readOk bs)
-            | none => (unwind s2, .panic)
-          | (v2, _) => (unwind { s1 with stack := v2 :: rest }, .panic)
+    | (s', true) => s'.readTop
 
 def run (s : Sess) : List Op → Sess × List Resp
   | [] => (s, [])
